@@ -112,6 +112,19 @@ def run(ctx):
             elif len(gls_r) >= 2 and i % 3 == 0:
                 constr["var_equal"] = [[gls_r[0], gls_r[1]]]
                 kinds.add("tie")
+            tot_i = [k[:-1] + "i" for k in tot_r if k[:-1] + "i" in free0]
+            neg_heads = []
+            if len(tot_i) >= 2 and i % 3 == 1:
+                # phase-only tie of two polar couplings; the radius of the head starts (and usually ends) negative
+                constr["var_equal"] = [[tot_i[-2], tot_i[-1]]]
+                kinds.add("tie")
+                kinds.add("phase-only tie")
+                neg_heads = [tot_i[-2][:-1] + "r"]
+                if "var_range" in constr and neg_heads[0] in constr["var_range"]:
+                    del constr["var_range"]
+                    kinds.discard("one-sided bound")
+            elif "var_equal" in constr and constr["var_equal"][0][0] in tot_r and i % 2 == 0:
+                neg_heads = list(constr["var_equal"][0])  # tied radii start negative
             if gls_r and i % 4 == 1:
                 constr["fix_var"] = {gls_r[-1]: 0.8}
             kinds.add("fixed")
@@ -121,6 +134,9 @@ def run(ctx):
                 amp = cfg.get_amplitude()
             truth = cards.random_params(amp, (ctx.seed, i))
             truth = {k: v for k, v in truth.items()}
+            for k in neg_heads:
+                if k in truth:
+                    truth[k] = -abs(truth[k]) - 0.3
             amp.set_params(truth)
             truth_all = {k: float(v) for k, v in amp.get_params().items()}
             # toy data from the model
